@@ -66,12 +66,23 @@ Fixpoint perm_eqb {A} (eqb : A -> A -> bool) (a b : list A) : bool :=
 
 Definition is_exit (c : hcall) := match c with HExit _ => true | _ => false end.
 Definition is_close (c : hcall) := match c with HTryClose _ => true | _ => false end.
-(** a finalize batch: exits (any order) followed by closes (any order) *)
+(** exits followed by closes, nothing else *)
+Fixpoint exits_before_closes (seen_close : bool) (F : list hcall) : bool :=
+  match F with
+  | [] => true
+  | HExit _ :: r => negb seen_close && exits_before_closes false r
+  | HTryClose _ :: r => exits_before_closes true r
+  | _ => false
+  end.
+(** a finalize batch: exits (any order) followed by closes (any order); [b] is the implementation's
+    batch in the order in which the calls were made ([batch_eqb_fin_reorder] in RecvProofs.v: the
+    relation checked is [fin_reorder] of Tunnel/ReceiverOrder.v, for which C04 and C08 are proved) *)
 Definition batch_eqb (a b : list hcall) : bool :=
   perm_eqb hcall_eqb (List.filter is_exit a) (List.filter is_exit b)
   && perm_eqb hcall_eqb (List.filter is_close a) (List.filter is_close b)
   && N.eqb (N.of_nat (List.length a)) (N.of_nat (List.length b))
-  && forallb (fun c => is_exit c || is_close c) b.
+  && forallb (fun c => is_exit c || is_close c) b
+  && exits_before_closes false b.
 
 Fixpoint strictly_ascending (l : list N) : bool :=
   match l with
